@@ -228,6 +228,34 @@ def run(c, chk):
         chk.ok('R11.6', '%d constant cursor steps' % nsteps, 'each covered by as many bytes compared with NUL / a non-NUL character on that path', sample=True)
     chk.floor('R11.3 cursor loops', nloops, 3)
 
+    # ---- R11.7: a step that does not resolve ends the lookup -------------------------------------------
+    chk.rule('R11.7', 'the resolver goes on to the next step only with the section the current step resolved to (never with "not found")')
+    secf = c.need('cfg_getopt_secidx')
+    nstep = 0
+    bad7 = None
+    for h in _loops.loops_over(secf, 'name'):
+        for p in _loops.iterate(ex, secf, h):
+            if p.end != 'stop':
+                continue
+            nxt = p.next.get('sec')
+            if nxt is None or nxt == ('p', 'sec'):
+                continue
+            nstep += 1
+            nonnull = any((lambda na: na is not None and na[0] == nxt and na[1] is False)(fp.is_null_assumption(cn, t)) for cn, t, _ in p.assume)
+            if not nonnull:
+                bad7 = bad7 or p
+    if bad7 is not None:
+        chk.fail('R11.7', 'continues-unresolved', c.where(secf), 'cfg_getopt_secidx() can start the next step of a path although the current step did not resolve to a section '
+                 '(%s): the rest of the path is looked up in a NULL section' % fp.cond_text(bad7, 5))
+    elif nstep:
+        chk.ok('R11.7', 'cfg_getopt_secidx: %d continuing paths' % nstep, 'each has established that the step resolved to a section', sample=True)
+    chk.floor('R11.7 continuing paths', nstep, 1)
+
+    # ---- R11.8: the schema-level walker resolves a path through a multi section to the section template ----
+    from . import c08 as _c08, c14 as _c14
+    chk.rule('R11.8', 'a schema path through a multi section resolves to the template of that section (what step-by-step navigation of the schema yields), not to one instance')
+    _c14.walker_template(c, _c08.chk_proxy(chk, {'R14.7': 'R11.8'}), ex)
+
     # ---- R11.5: qualifiers ------------------------------------------------------------------------
     chk.rule('R11.5', 'an index qualifier must be a whole numeral, and every step starts without an instance index (no carry-over between steps)')
     hdrs = _loops.loops_over(sec, 'name')
